@@ -12,19 +12,6 @@ def permitted (st : Strategy) (ow : Owner) (force : Bool) (o : Obj) (prev : List
   (eff == .none || (eff == .ifNoController && !hasController st o) ||
    (controlledByPrevious st o prev && decide (revNum o.rev < ow.rev)))
 
-/-- between the brackets of `tag=[...]` in a printed object. -/
-def listField (objStr tag : String) : List String :=
-  match objStr.splitOn (tag ++ "=[") with
-  | _ :: rest :: _ =>
-    let inner := (rest.splitOn "]").headD ""
-    if inner.isEmpty then [] else inner.splitOn ","
-  | _ => []
-
-def scalarField (objStr tag : String) : String :=
-  match objStr.splitOn ("," ++ tag ++ "=") with
-  | _ :: rest :: _ => ((rest.splitOn ",").headD "").takeWhile (· ≠ '}') |>.toString
-  | _ => ""
-
 def monitor (s : Scn) (out : String) : String := Id.run do
   if s.mode ≠ "reconcile" then return "ok"
   if !(s.env.getD []).isEmpty then return "ok"     -- third-party races: judged by the trace diff + C05
